@@ -215,7 +215,8 @@ def attribute(case: dict, target, code: str) -> tuple[str, str, str]:
 
     if re.search(r"^\s+None: .*$", code, re.M) and not isinstance(case["doc"], str):
         # a member without a name was rendered (Jinja prints the missing name as `None`): the placeholder that
-        # `required` entries naming no declared member leave behind
+        # `required` entries naming no declared member leave behind. No known finding matches this site any more
+        # (C01-required-empty-name is repaired): the trigger only tells in the VIOLATION which entry left the placeholder
         run = lambda d: e2e.run_generate(shape.doc_text(d), input_file_type=case.get("input_file_type", "jsonschema"), model=case["model"], opts=case["opts"],  # noqa: E731
                                          formatters=case.get("formatters"), timeout=15, target=target,
                                          modular=bool(case["opts"].get("treat_dot_as_module")) or case.get("modular", False))
@@ -284,7 +285,36 @@ CORPUS = [
     # D20 (fixed): NUL in a TypedDict key
     {"doc": {"type": "object", "properties": {"a\x00b": {"type": "string"}}}, "model": "typing.TypedDict", "opts": {}},
     {"doc": {"type": "object", "properties": {"x": {"type": "string", "default": "'''\"\"\"\\\n"}}}, "model": "dataclasses.dataclass", "opts": {}},
+    # C01-required-empty-name (fixed): `required: [""]` beside an allOf — the name-less placeholder used to survive
+    # `Parser.__override_required_field` (guard `not original_name`) and was rendered `None: None`. The document must be
+    # generated, every module must parse and (where the kind can be executed here) import, for every model kind:
+    # no base declares "" (placeholder dropped) / the base declares "" (re-declared required) / a base of the base does
+    *[{"doc": {"definitions": {"B": {"type": "object", "properties": {"x": {"type": "integer"}, **extra}}, **mid,
+                               "D": {"allOf": [{"$ref": "#/definitions/" + ("M" if mid else "B")}], "required": [""]}}},
+       "model": kind, "opts": {}, "clean": True, "must_import": True}
+      for extra, mid in (({}, {}), ({"": {"type": "string"}}, {}),
+                         ({"": {"type": "string"}}, {"M": {"allOf": [{"$ref": "#/definitions/B"}], "properties": {"m": {"type": "boolean"}}}}))
+      for kind in e2e.MODEL_KINDS],
 ]
+
+
+def corpus_imports(ck: Check, camp, case: dict) -> None:
+    """Corpus cases of repaired findings whose repair is stated as 'the module is usable' (`must_import`): beyond C01's
+    oracle (the module parses, judged by run_case), the single-file module of a kind this sandbox can execute must
+    import. Nothing of the random campaigns is judged by this."""
+    res = e2e.run_generate(shape.doc_text(case["doc"]), input_file_type=case.get("input_file_type", "jsonschema"), model=case["model"], opts=case["opts"],
+                           formatters=None, timeout=15)
+    if not res.ok:
+        return  # run_case has judged it
+    for path, code in res.files.items():
+        if not path.endswith(".py") or e2e.parses(code) is not None:
+            continue  # run_case has judged it
+        camp.hit("corpus:import-checked")
+        try:
+            e2e.unload(e2e.load_module(code, case["model"]))
+        except BaseException as e:  # noqa: BLE001
+            ck.fail({"oracle": "corpus_module_imports", "kind": case["model"], "mechanism": "import_error", "error": type(e).__name__}, case,
+                    f"{path} of a corpus case (repaired finding) does not import: {type(e).__name__}: {e}"[:400])
 
 
 def campaign_e2e(ck: Check, n_clean: int, n_adv: int) -> None:
@@ -292,6 +322,8 @@ def campaign_e2e(ck: Check, n_clean: int, n_adv: int) -> None:
     t0 = time.time()
     for c in CORPUS:
         run_case(ck, camp, dict(c))
+        if c.get("must_import") and c["model"] in e2e.EXECUTABLE_KINDS:
+            corpus_imports(ck, camp, dict(c))
     rng = ck.rng.fork("e2e-clean")
     for _ in range(n_clean):
         run_case(ck, camp, make_case(rng, True))
